@@ -38,12 +38,17 @@ EXPECTED_HANDWRITTEN = [
 
 
 def template_discharges(F):
-    """obligation multisets discharged by the C13 template, per function def path; None if the
-    template does not hold on this tree"""
+    """spans of the panic-capable constructs in floor_char_boundary / truncate that the C13 templates account for:
+    (covered {span: reason}, why-not list)"""
     probe = Probe()
-    ok = c13.check_floor(probe, F, None)
-    floor_ok = ok is True and not probe.failed
-    return floor_ok, probe.failed
+    covered = {}
+    r = c13.check_floor(probe, F, None)
+    if r and r[0] is True and not probe.failed:
+        covered.update(r[1])
+        ok2, cov2 = c13.check_truncate(probe, F, None, True)
+        if ok2 and not probe.failed:
+            covered.update(cov2)
+    return covered, probe.failed
 
 
 def run(ctx):
@@ -64,36 +69,7 @@ def run(ctx):
         defs = {i["def"] for i in R.local}
         for d in EXPECTED_HANDWRITTEN:
             ctx.oblige("C04|reachable|" + d, d in defs, "%s is no longer reachable from Request::deserialize (renamed? the obligation scan would miss its replacement)" % d, cfg=cfg, nontrivial=False)
-        floor_ok, why = template_discharges(F)
-        # truncate's own template clauses are checked by re-running the C13 truncate rule through a probe
-        probe = Probe()
-        tfn = F.fn(c13.TRUNCATE)
-        trunc_ok = False
-        if tfn is not None:
-            class _F:  # minimal ctx facade: run only the truncate part of C13
-                pass
-            # reuse: C13's truncate clauses live in c13.run; replicate the two that discharge obligations
-            from .pathcond import Analysis
-            A = Analysis(tfn)
-            calls = [x for x in H.walk(tfn["body"]) if x.get("k") in ("call", "mcall") and "ctor" not in x]
-            fl = [x for x in calls if x.get("callee") in (c13.FLOOR, "core::str::<impl str>::floor_char_boundary")]
-            pushes = [x for x in calls if x.get("callee") == "heapless::string::String::<N>::push_str"]
-            if len(fl) == 1 and len(pushes) == 1:
-                a = H.call_args(fl[0])
-                own_L = H.strip(a[1]).get("k") == "path" and H.strip(a[1])["res"].get("path") == c13.TRUNCATE + "::L" and H.local_id(a[0]) in A.param_ids
-                p = pushes[0]
-                init = A.env.get(H.local_id(p["recv"]))
-                fresh = init is not None and H.strip_block(init).get("callee") == "heapless::string::String::<N>::new" and (H.strip_block(init).get("targs") or [""]) == ["L"]
-                arg = H.strip(p["args"][0])
-                sl = arg.get("k") == "index" and H.local_id(arg["base"]) in A.param_ids
-                if sl:
-                    idx = H.strip(arg["idx"])
-                    sl = idx.get("k") == "struct" and idx["res"].get("path") == "core::ops::range::RangeTo" and A.subst(idx["fields"][0]["e"]) is fl[0]
-                trunc_ok = own_L and fresh and sl
-        expected = {
-            "webauthn::floor_char_boundary": {"call:core::ops::index::Index::index": 1, "call:core::option::Option::<T>::unwrap_unchecked": 1, "assert:overflow:Add": 1},
-            "webauthn::truncate": {"call:core::ops::index::Index::index": 1, "call:core::result::Result::<T, E>::unwrap": 1},
-        }
+        covered, why = template_discharges(F)
         used = {}
         obs = R.obligations()
         n_user = len([i for i in R.local if i.get("pv") == "user"])
@@ -101,20 +77,26 @@ def run(ctx):
         for inst, ev, kind in obs:
             d = inst["def"]
             key = "C04|obligation|%s|%s" % (d, kind)
-            budget = expected.get(d, {}).get(kind, 0)
-            cnt = used.get((d, kind, inst["i"]), 0)
             discharged = False
             rule = None
-            if budget and cnt < budget:
-                if d == "webauthn::floor_char_boundary" and floor_ok:
-                    discharged, rule = True, "B-tmpl(floor): window of >= 4 positions ending at index < len contains a boundary; lower + pos <= index"
-                elif d == "webauthn::truncate" and floor_ok and trunc_ok:
-                    discharged, rule = True, "B-tmpl(floor): s[..floor(s, L)] is on a boundary and has at most L bytes, pushed into a fresh String<L>"
-                used[(d, kind, inst["i"])] = cnt + 1
+            if d in ("webauthn::floor_char_boundary", "webauthn::truncate"):
+                # the MIR event's span lies inside (or equals) the span of a construct the template covers
+                from .oblig_mono import _sp
+                want = _sp(ev.get("sp"))
+                for csp, reason in covered.items():
+                    have = _sp(csp)
+                    if want and have and have[0] == want[0] and have[1] <= want[1] and want[2] <= have[2]:
+                        discharged, rule = True, "B-tmpl(floor): " + reason
+                        break
+            if not discharged:
+                from . import oblig_rules as OR
+                g_rule, g_detail = OR.discharge(F, inst, ev, kind)
+                if g_rule in ("B-const-arith", "B-shift-lit", "B-full-range", "B-enum-cast"):
+                    discharged, rule = True, "%s: %s" % (g_rule, g_detail)
             if kind.startswith("static") and not ev.get("mutable"):
                 discharged, rule = True, "immutable static"
             msg = "undischarged obligation on the decode path: %s in %s (%s); call path: %s" % (kind, inst["name"][:90], ev.get("sp"), " -> ".join(R.path_to(inst["i"])[-4:]))
-            if not discharged and d in expected and not floor_ok:
+            if not discharged and d in ("webauthn::floor_char_boundary", "webauthn::truncate") and why:
                 msg += "; the C13 floor template does not hold: %s" % (why[:2],)
             ctx.oblige(key, discharged, msg, cfg=cfg, where=ev.get("sp"))
             if discharged:
